@@ -351,7 +351,7 @@ pub fn sample_pick(n: usize, seed: u64, want: usize) -> Vec<usize> {
     let want = want.min(n);
     let step = (n / want).max(1);
     let off = (seed as usize) % step.max(1);
-    (0..want).map(|i| (off + i * step) % n).collect()
+    (0..want).map(|i| n - 1 - (off + i * step) % n).collect()
 }
 
 pub fn machinery_failure(msg: &str) -> ! {
